@@ -197,6 +197,30 @@ func (x rtype) eq(_ types.Type, y interface{}) bool {
 // In a well-typed program, the dynamic types of x and y are
 // guaranteed equal.
 func equals(t types.Type, x, y value) bool {
+	// symbolic scalars: map operations fork on equality with every existing key before they get
+	// here (resolveSymKey*), so what remains is syntactic identity
+	if sx, ok := x.(sym); ok {
+		sy, ok := y.(sym)
+		return ok && sx.t == sy.t && sx.k == sy.k
+	}
+	if _, ok := y.(sym); ok {
+		return false
+	}
+	if sx, ok := x.(symString); ok {
+		sy, ok := y.(symString)
+		if !ok || len(sx.b) != len(sy.b) {
+			return false
+		}
+		for i := range sx.b {
+			if !equals(nil, sx.b[i], sy.b[i]) {
+				return false
+			}
+		}
+		return true
+	}
+	if _, ok := y.(symString); ok {
+		return false
+	}
 	switch x := x.(type) {
 	case bool:
 		return x == y.(bool)
